@@ -6,6 +6,7 @@
 -/
 import Hpfeeds.Lemmas.BrokerGauge
 import Hpfeeds.Lemmas.BrokerFault
+import Hpfeeds.Props.C10
 import Hpfeeds.Legacy
 namespace Hpfeeds.C19
 open Hpfeeds Hpfeeds.Broker Extracted
@@ -128,5 +129,11 @@ theorem channel_total_under_write_faults (cfg : Cfg) (es : List (Store × List N
     (hcover : ∀ c x, (runF cfg es).conn c = some x → ch ∈ x.active → x.ak ∈ L) :
     (L.map (fun l => (runF cfg es).gSubs l ch)).sum = cnt (runF cfg es) (fun x => decide (ch ∈ x.active)) :=
   gauge_channel_total (gauge_runF cfg es) ch L hL hcover
+
+/-! non-vacuity (kernel-evaluated) on C10's faulty history: two connections registered and subscribed to "c" as "a"; the
+    transport of connection 2 refuses the publish and is closed by the broker - still registered until its loss arrives,
+    so both gauges read 2, as the theorem says -/
+example : (runF C01.exCfg C10.exFaulty).gConns = 2 ∧ (runF C01.exCfg C10.exFaulty).gSubs (some [97]) [99] = 2 ∧
+    (runF C01.exCfg C10.exFaulty).cMade = 2 := by decide +kernel
 
 end Hpfeeds.C19
